@@ -3,14 +3,11 @@
   tables by `decide`), for any classification that agrees with Python's on ASCII.
 -/
 import DateutilVerif.Proofs.LexRender
+import DateutilVerif.Spec.ParserSentence
 
 namespace PM
 open Py PT
 
-def stock : Info := Info.default false false 0 0
-
-def isAlphaWord (w : List Char) : Bool :=
-  !w.isEmpty && w.all (fun c => decide (c.toNat < 128) && (asciiCls c).isWord && decide (c ≠ '\x00'))
 
 theorem mon_table : ∀ i : Fin 12,
     stock.monthOf (monAbbr (i.val + 1)) = some (i.val + 1) ∧ stock.monthOf (monFull (i.val + 1)) = some (i.val + 1) ∧
